@@ -504,6 +504,55 @@ def amalgamate_cases(d, mat, tag):
                 common.close_leaked_h5()
                 if dst.exists():
                     dst.unlink()
+        # selections from ONE file through two different locations (X and a
+        # layer holding another matrix), in both orders
+        pc = d / f'am_c_{tag}_{enc_a}.h5ad'
+        sparsegen.write_h5ad(pc, mat, enc_a)
+        with h5py.File(pc, 'a') as f:
+            lg = f.require_group('layers')
+            lg.attrs['encoding-type'] = 'dict'
+            lg.attrs['encoding-version'] = '0.1.0'
+            if enc_b == 'dense':
+                ds = lg.create_dataset('other', data=mat_b)
+                ds.attrs['encoding-type'] = 'array'
+                ds.attrs['encoding-version'] = '0.2.0'
+            else:
+                sparsegen.write_sparse_group(lg.create_group('other'), mat_b,
+                                             enc_b)
+        allrows = list(range(n_rows))
+        for order in (('X', 'other'), ('other', 'X')):
+            for dst_sparse in (True, False):
+                n += 1
+                dst = d / f'am_dst2_{tag}_{n}.h5ad'
+                tmp = d / f'am_tmp2_{tag}_{n}'
+                tmp.mkdir()
+                obs = pd.DataFrame(index=pd.Index(
+                    [f'{order[0]}{r}' for r in allrows]
+                    + [f'{order[1]}{r}' for r in allrows[::-1]]))
+                src = {'X': mat, 'other': mat_b}
+                exp = np.vstack([src[order[0]][allrows, :],
+                                 src[order[1]][allrows[::-1], :]])
+                try:
+                    amalgamate_h5ad(
+                        src_rows=[{'path': str(pc), 'rows': allrows,
+                                   'layer': order[0]},
+                                  {'path': str(pc), 'rows': allrows[::-1],
+                                   'layer': order[1]}],
+                        dst_path=dst, dst_obs=obs, dst_var=var,
+                        dst_sparse=dst_sparse, tmp_dir=tmp)
+                    got = sparsegen.read_x_dense(dst)
+                    if got.shape != exp.shape or not np.array_equal(
+                            got, exp):
+                        msgs.append(f'amalgamate one {enc_a} file through '
+                                    f'{order} sparse={dst_sparse}: got\n'
+                                    f'{got}\nexpected\n{exp}')
+                except Exception as e:
+                    msgs.append(f'amalgamate one file through {order} '
+                                f'raised {type(e).__name__}: {e}')
+                from mc import common
+                common.close_leaked_h5()
+                if dst.exists():
+                    dst.unlink()
     return n, msgs
 
 
